@@ -3,7 +3,8 @@
    (GeophiresXResult of geophires_x_client/geophires_x_result.py); set.pop() is modelled as an arbitrary
    choice [k] among the distinct matching lines. *)
 From Coq Require Import String Ascii List ZArith QArith Qabs Bool PeanoNat.
-From Verif Require Import Base.Flat Model.ResultParser Proofs.ResultParserProofs Proofs.ResultParserProofs2 Proofs.ResultParserTableProofs
+From Verif Require Import Base.Flat Model.ResultParser Model.ResultParserFast Proofs.ResultParserProofs Proofs.ResultParserProofs2
+     Proofs.ResultParserFastProofs Proofs.ResultParserTableProofs
      Gen.C10Fields Gen.C10Labels.
 Import ListNotations.
 Open Scope string_scope.
@@ -260,6 +261,32 @@ Theorem C10_number_na : parse_number "N/A" = MNone.
 Proof. exact parse_na. Qed.
 Print Assumptions C10_number_na.
 
+(* string-valued fields (End-Use Option, Power plant type, ...): for every label, widths and every value text that
+   re.sub(r'\s\s+', '', .) leaves alone (e.g. words separated by single blanks: Proofs.solid_join), the value is
+   that text, with unit None *)
+Theorem C10_string_field :
+  forall name indent pad v,
+  head_not_space name -> (2 <= indent + pad)%nat ->
+  contains (name ++ ":") (spaces pad ++ v ++ NL) = false ->
+  solid v -> (exists c r, v = String c r /\ is_ws c = false) ->
+  all_chars (fun c => negb (Ascii.eqb c NLc)) v = true ->
+  field_of_line name true (spaces indent ++ name ++ ":" ++ spaces pad ++ v ++ NL) = MR (MStr v) None.
+Proof. exact string_field_roundtrip. Qed.
+Print Assumptions C10_string_field.
+
+(* the kernel check indexes every line once (texts in front of ": " / " = ", reversed) instead of scanning every
+   line for every field: a marker m ++ sep matches a line iff reversed m starts one of the indexed texts, so the
+   indexed check returns, for every report and every client answer, exactly what the plain model returns *)
+Theorem C10_index_match :
+  forall m sep l, existsb (prefixb (rev_str m)) (rev_prefixes sep "" l) = contains (m ++ sep) l.
+Proof. exact fast_match_iff. Qed.
+Print Assumptions C10_index_match.
+
+Theorem C10_indexed_check_sound :
+  forall t text raised r, check_report_fast t text raised r = check_report t text raised r.
+Proof. exact check_report_fast_same. Qed.
+Print Assumptions C10_indexed_check_sound.
+
 (* ---- non-vacuity: concrete instances satisfying the hypotheses ---------------------------------------------- *)
 Example C10_ex_roundtrip :
   field_of_line "Well depth" false (render_scalar 6 "Well depth" 1 "-12,345,678.9" (Some "kilometer") NL)
@@ -350,3 +377,14 @@ Example C10_ex_carbon_view :
   carbon_view 1 [0%nat; 1%nat] [[MInt 1; MFlt 1 (-2); MInt 7]; [MInt 2; MFlt 0 (-2); MInt 8]]
   = Some (Some [[MInt 1; MFlt 1 (-2)]; [MInt 2; MFlt 0 (-2)]]).
 Proof. vm_compute. reflexivity. Qed.
+
+Example C10_ex_index :
+  rev_prefixes ": " "" "    Well depth: 3.0" = ["htped lleW    "]
+  /\ existsb (prefixb (rev_str "    Well depth")) (rev_prefixes ": " "" "      Well depth: 3.0") = true.
+Proof. split; vm_compute; reflexivity. Qed.
+
+Example C10_ex_string_field :
+  solid ("Direct-Use" ++ " " ++ "Heat")
+  /\ field_of_line "End-Use Option" true (spaces 6 ++ "End-Use Option" ++ ":" ++ spaces 1 ++ "Direct-Use Heat" ++ NL)
+     = MR (MStr "Direct-Use Heat") None.
+Proof. split; [apply solid_join; [reflexivity | reflexivity | discriminate] | vm_compute; reflexivity]. Qed.
